@@ -530,7 +530,15 @@ var opDefs = []opDef{
 			ts = append(ts, fmt.Sprint(p))
 		}
 		return []string{fmt.Sprintf("u8:%d", door), "list:" + strings.Join(ts, ",")}, func(u uhppote.IUHPPOTE) string {
-			return boolRes(u.SetDoorPasscodes(dev, door, ps...))
+			// the codes are a slice of a longer table (one table, four slots per door): neither the slice nor the
+			// rest of the table behind it may be written to
+			table := append(append([]uint32{}, ps...), 111111, 222222, 333333, 444444, 555555)
+			before := fmt.Sprint(table)
+			res := boolRes(u.SetDoorPasscodes(dev, door, table[:len(ps)]...))
+			if fmt.Sprint(table) != before {
+				return "mutated-argument"
+			}
+			return res
 		}
 	}},
 	{name: "OpenDoor", code: 0x40, reply: messages.OpenDoorResponse{}, gen: func(r *rng.R, dev uint32, wild bool) ([]string, func(u uhppote.IUHPPOTE) string) {
@@ -576,6 +584,14 @@ type cfgGen struct {
 	broadcast types.BroadcastAddr
 }
 
+var deviceZones = func() []*time.Location {
+	out := []*time.Location{nil, time.UTC, time.FixedZone("east", 5*3600+45*60), time.FixedZone("west", -(9*3600 + 30*60))}
+	if l, err := time.LoadLocation("America/New_York"); err == nil {
+		out = append(out, l)
+	}
+	return out
+}()
+
 func genCfg(r *rng.R, dev uint32) cfgGen {
 	g := cfgGen{}
 	if r.Chance(1, 2) {
@@ -614,7 +630,8 @@ func genCfg(r *rng.R, dev uint32) cfgGen {
 		if r.Bool() {
 			d = uhppote.NewDevice(name, serial, addr, proto, []string{"a", "b"}, nil)
 		} else {
-			d = uhppote.Device{Name: name, DeviceID: serial, Address: addr, Protocol: proto}
+			// ... and may carry any time zone (descriptive only: nothing a call sends or returns depends on it)
+			d = uhppote.Device{Name: name, DeviceID: serial, Address: addr, Protocol: proto, TimeZone: deviceZones[r.Intn(len(deviceZones))]}
 		}
 		g.devices = append(g.devices, d)
 		g.toks = append(g.toks, fmt.Sprintf("dev=%d;%s;%s;%s", serial, name, at, d.Protocol))
@@ -856,6 +873,9 @@ func streamOps(c *ctx) {
 	// (5) six clients on six goroutines at the same time
 	parallelPhase(c, N/200)
 	c.w.Notes = append(c.w.Notes, "ops stream, phase parallel: 6 goroutines x 40 calls, each goroutine with its own client, configuration and in-memory driver, two thirds of the calls carrying dates (PutCard, SetTimeProfile, AddTask, SetTime); every call judged by itself as in the sequential phases")
+	// (6) one client shared by six goroutines
+	sharedPhase(c, 2*c.scale)
+	c.w.Notes = append(c.w.Notes, "ops stream, phase shared-client: one client with three configured controllers used by 6 goroutines x 300 calls at once (SetAddress, DeviceList, GetTime, OpenDoor, GetDevice on the in-memory driver): every call returns and the process survives")
 	// (4) the real driver on loopback sockets: the request as the controller stand-in read it from the wire
 	wirePhase(c, N/8)
 	c.w.Notes = append(c.w.Notes, "ops stream, phase wire: the same operations through the REAL ut0311 driver (broadcast-to / UDP / TCP x debug flag on / off, every operation at least once in each combination) to a stand-in on 127.0.0.1; the request bytes compared with the model are the ones the stand-in read from its socket")
